@@ -284,8 +284,12 @@ Record wstate := mkW {
    [length fs + 1] candidates one is free, so the search never fails (proved). *)
 Definition name_taken (fs : list file) (nm : fname) : bool :=
   existsb (fun f => f_alive f && fname_eqb (f_name f) nm) fs.
-Definition fresh_n (fs : list file) (sec : N) : option N :=
-  find (fun n => negb (name_taken fs (NGen sec n))) (map N.of_nat (seq 0 (S (length fs)))).
+Fixpoint fresh_from (fs : list file) (sec : N) (fuel : nat) (n : N) : option N :=
+  match fuel with
+  | O => None
+  | S f => if name_taken fs (NGen sec n) then fresh_from fs sec f (N.succ n) else Some n
+  end.
+Definition fresh_n (fs : list file) (sec : N) : option N := fresh_from fs sec (S (length fs)) 0.
 Definition create (tps now : N) (fs : list file) : option (fname * list file) :=
   match fresh_n fs (now / tps) with
   | None => None
